@@ -276,6 +276,7 @@ class Dispatch(Spec):
             st.ghost["CALLED"] = z3.Store(G(st, "CALLED"), TUP2(h, z_int(args[0])), True)
             return ret(None, st)
 
+        cb.ghost_modifies = ["CALLED"]
         self.calls = {var: Builtin(cb, "registered callback: arbitrary code, assumed not to edit the handler lists")}
 
     def setup(self, st, inst):
@@ -1200,6 +1201,7 @@ def b_post_walk(ex, st, args, kw):
 
 
 b_post_walk.modifies = WL_FRAME
+b_post_walk.ghost_modifies = DRIVER_GHOSTS
 
 
 class RewriteRegion(Spec):
